@@ -54,4 +54,10 @@ theorem vecMul_translation_sa (c : Fin (n + 1)) (t : Fin n → K) (x : Fin (n + 
   simp [Matrix.vecMul, dotProduct, Fin.sum_univ_succAbove _ c, affineTranslation,
     Fin.succAbove_ne, Matrix.one_apply, add_comm]
 
+theorem zip_const_left {α β : Type*} (a : α) (l : List β) :
+    (l.map fun _ => a).zip l = l.map fun b => (a, b) := by
+  induction l with
+  | nil => rfl
+  | cons b l ih => simp only [List.map_cons, List.zip_cons_cons, ih]
+
 end GT.Affine
